@@ -1,6 +1,7 @@
 package vsim
 
 import (
+	"time"
 	"errors"
 	"fmt"
 	"io"
@@ -26,6 +27,9 @@ type SpyRelayHost struct {
 	Downstream []string
 	// IterCheck: walk arg2 with the key/value iterator (C18) and record pairs.
 	IterCheck bool
+	// Slow > 0: a slow relay host - one callback in Slow takes 1-4 ticks (metrics emission,
+	// a lock in the host's own code), on the relay's connection reader goroutines
+	Slow int
 }
 
 // SpyCall is the record of one relayed call as the relay host saw it.
@@ -133,14 +137,22 @@ func (c *SpyCall) log(what string) {
 }
 
 func (c *SpyCall) Destination() (*tchannel.Peer, bool) { return c.peer, c.peer != nil }
-func (c *SpyCall) SentBytes(n uint16)                    { c.log(fmt.Sprintf("sent(%d)", n)) }
-func (c *SpyCall) ReceivedBytes(n uint16)                { c.log(fmt.Sprintf("received(%d)", n)) }
-func (c *SpyCall) CallResponse(f relay.RespFrame)        { c.log(fmt.Sprintf("callres(ok=%v)", f.OK())) }
-func (c *SpyCall) Succeeded()                            { c.log("succeeded") }
+func (c *SpyCall) SentBytes(n uint16)                    { c.log(fmt.Sprintf("sent(%d)", n)); c.dawdle() }
+func (c *SpyCall) ReceivedBytes(n uint16)                { c.log(fmt.Sprintf("received(%d)", n)); c.dawdle() }
+func (c *SpyCall) CallResponse(f relay.RespFrame)        { c.log(fmt.Sprintf("callres(ok=%v)", f.OK())); c.dawdle() }
+func (c *SpyCall) Succeeded()                            { c.log("succeeded"); c.dawdle() }
 func (c *SpyCall) Failed(reason string) {
 	c.failed = append(c.failed, reason)
 	c.h.w.probe("relay.failed(" + reason + ")")
 	c.log("failed(" + reason + ")")
+	c.dawdle()
+}
+
+func (c *SpyCall) dawdle() {
+	if c.h.Slow > 0 && !c.h.w.QuiesceStarted && app(c.h.Slow) == 0 {
+		c.h.w.Net.Fired["app.slow-relay-host"]++
+		sleep(time.Duration(1+app(4)) * c.h.w.Grid)
+	}
 }
 func (c *SpyCall) End() {
 	c.log("end")
